@@ -28,6 +28,7 @@ import contracts.bp_instance  # noqa: E402
 import contracts.order1d  # noqa: E402
 import contracts.tsplib  # noqa: E402
 import contracts.control  # noqa: E402
+import contracts.control_kernels  # noqa: E402
 import bounded.bl_reference  # noqa: E402
 import bounded.objectives_oracle  # noqa: E402
 
@@ -115,13 +116,52 @@ PLANS["C13"] = Plan(
                "moptipyapps.tsp.fea1p1_revn:rev_if_h_not_worse", QO + ":_evaluate",
                ODE + ":_is_ok", ODE + ":__j_from_ode_compute", ODE + ":j_from_ode"],
     lemmas=["tri_bound", "mul_le"],
-    extra=[contracts.control.prove_c16],
+    extra=[contracts.control.prove_c16, contracts.control.prove_c13_other_controllers],
     explanation="one bounds obligation (-len <= index < len, the exact memory-safety condition of numpy/numba indexing) per "
                 "subscript of every njit kernel, discharged under the pre-conditions that the public spaces and constructors "
-                "establish, together with the loop invariants those obligations rest on",
+                "establish, together with the loop invariants those obligations rest on; the kernel inventory (every function "
+                "of the package decorated with numba's jit) is recomputed from /repo on every run and compared with the "
+                "functions under contract",
     trusted=["pre-conditions = what PackingSpace/decoders, GamePlanSpace.validate (entries in -n..n incl. self-play), "
              "Permutations and the instance constructors establish (E1, E2)"],
 )
+
+_MOB = "moptipyapps.dynamic_control.model_objective"
+_SPT = "moptipyapps.dynamic_control.starting_points"
+PLANS["C13"].functions += [_MOB + ":_evaluate", _MOB + ":ModelObjective.begin", _MOB + ":ModelObjective.evaluate",
+                           _SPT + ":interesting_point_transform", _SPT + ":interesting_point_objective"]
+# compiled kernels that are knowingly not under contract (reported in the evidence, never counted)
+_C13_UNCOVERED = {
+    "moptipyapps.dynamic_control.surrogate_optimizer:SurrogateOptimizer.solve.__new_model":
+        "closure created inside SurrogateOptimizer.solve: `_eq(np.hstack((state, control)), time, _params, out)` - no "
+        "subscript at all; the function object is created at run time and is not reachable by the extractor",
+}
+
+
+def _prove_c13_inventory(tier, seed):
+    """every compiled kernel of the package must be under a C13 contract (or in the explicit list above): a kernel that
+    appears in /repo without one makes C13 undecided for it - never a violation"""
+    from pyvc.floatsym import Res
+    inv = contracts.control.kernel_inventory()
+    covered = {f.partition("#")[0] for f in PLANS["C13"].functions}
+    covered |= {r.fn for ex in (contracts.control.prove_c16, contracts.control.prove_c13_other_controllers)
+                for r in getattr(ex, "last", [])}
+    res = []
+    for q in inv:
+        if q in covered:
+            st, why = "proved", "under contract"
+        elif q in _C13_UNCOVERED:
+            continue
+        else:
+            st, why = "undecided", "compiled kernel without a contract: C13 is not decided for it"
+        res.append(Res(q, "inventory", "kernel-under-contract", frozenset(["C13"]), st, backend="inventory", reason=why))
+    _prove_c13_inventory.uncovered = [q for q in inv if q in _C13_UNCOVERED]
+    return res
+
+
+PLANS["C13"].extra.append(_prove_c13_inventory)
+PLANS["C13"].assumptions = list(PLANS["C13"].assumptions) + [
+    f"compiled kernel not under contract: {k} ({v})" for k, v in _C13_UNCOVERED.items()]
 
 PLANS["C16"] = Plan(
     "C16", "proof",
@@ -136,7 +176,8 @@ PLANS["C16"] = Plan(
                 "against the published equations; constant indices within declared dims; no kernel writes its inputs",
     trusted=["sympy polynomial arithmetic / z3 nlsat", "IEEE arithmetic treated as real arithmetic (kernels use fastmath)",
              "parameter layout of partially linear / peak / ANN controllers: block order as documented in this contract"],
-    assumptions=["min_ann controllers (iterative search): bounded stand-in only", "predefined controllers: not covered"],
+    assumptions=["min_ann controllers (iterative search): value bounded stand-in only (their memory safety is proved under C13)",
+                 "predefined controllers: formulas not covered (memory safety proved under C13)"],
 )
 
 PLANS["C04"] = Plan(
@@ -262,9 +303,19 @@ PLANS["C10"] = Plan(
 PLANS["C11"] = Plan(
     "C11", "other",
     functions=["moptipyapps.dynamic_control.objective:FigureOfMerit.set_raw",
-               "moptipyapps.dynamic_control.objective:FigureOfMerit.set_model"],
+               "moptipyapps.dynamic_control.objective:FigureOfMerit.set_model",
+               "moptipyapps.dynamic_control.objective:FigureOfMerit.evaluate",
+               "moptipyapps.dynamic_control.objective:FigureOfMerit.initialize",
+               "moptipyapps.dynamic_control.objective:FigureOfMerit.__append"],
     bounded=[bounded.fom.harness],
-    explanation="proved (object state against the abstract view mode/collecting): set_raw restores the real equations and collects "
+    extra=[contracts.fom.prove_c11],
+    explanation="proved (object state against the abstract view mode/collecting/collected blocks): evaluate returns one fixed "
+                "expression in (x, configuration, current equations): every read of the re-used buffer __results is preceded "
+                "by a write in the same call (so earlier evaluations cannot leak in), the aggregate is taken over the figures "
+                "of merit of all training cases, 1e200 exactly when a case or the aggregate leaves [0, 1e100], no attribute "
+                "is assigned, training data grows only while collecting and by one block per simulated case; the two "
+                "sum_up_results bodies are the documented aggregates; initialize clears the collected data and returns to "
+                "raw mode (modular call of set_raw's contract); set_raw restores the real equations and collects "
                 "iff model mode is supported; set_model raises iff it is not supported, otherwise installs the model and stops "
                 "collecting; both assign nothing but the two mode fields. bounded interleaving monitor on the real FigureOfMerit / FigureOfMeritLE objects: evaluate(x) after arbitrary "
                 "sequences of evaluate / initialize / set_model / set_raw / get_differentials equals evaluate(x) of a fresh "
@@ -342,11 +393,15 @@ PLANS["C05"] = Plan(
 
 
 META = {
-    "C11": {"text": "mode switches proved against the abstract view (frames, collecting iff raw and supported); evaluate after "
-                    "arbitrary method sequences vs a fresh object and an independent recomputation: bounded interleaving monitor",
-            "note": "level 'other': two small method contracts proved; evaluate/initialize/get_differentials are covered by the "
-                    "bounded monitor only (E7: determinism of the simulation functions is assumed)",
-            "technique": "contract-based deductive verification of the mode-switch methods + run-time contract monitor"},
+    "C11": {"text": "evaluate proved to be a fixed function of (x, configuration, current dynamics): the re-used result buffer is "
+                    "completely rewritten before it is read, no attribute assigned, 1e200 exactly on a failed case, data "
+                    "collected only in collect mode; initialize / set_raw / set_model / __append proved against the abstract "
+                    "view; evaluate after arbitrary method sequences vs a fresh object: bounded interleaving monitor",
+            "note": "level 'other': the method contracts are proved with run_ode / j_from_ode / diff_from_ode / sum_up_results as "
+                    "assumed pure functions (E7: determinism of the simulation is exactly what the source comment doubts; it is "
+                    "monitored by the bounded harness, not proved); get_differentials is covered by the monitor only",
+            "technique": "contract-based deductive verification of the FigureOfMerit methods (object state, frame, "
+                         "write-before-read ghost state) + run-time contract monitor"},
     "C10": {"text": "the integer/array logic around the integrator is proved (_is_ok, the figure-of-merit buffer computation and "
                     "its allocation); the simulation post-condition is monitored on a fixed family of programs including "
                     "diverging and NaN/inf controllers; termination/accuracy of scipy RK45 is outside any contract here",
